@@ -409,6 +409,7 @@ NA = {
  "C16":"same reason as C15: planners over map snapshots and shard bitmaps across many servers",
  "C27":"recursive listing driven by gRPC stream callbacks with mutable cursor state across recursion over an external tree",
  "C29":"containment depends on path normalisation in gorilla/mux, net/url, filepath and the filer; textual prefix contracts would be vacuous",
+ "C30":"the dirty-page interval lists (ContinuousIntervals.AddInterval / removeList over linked lists of byte spans) were tried under a bounded contract: 22 minutes per run with refutations that could not be resolved against the real code, so nothing is claimed (DESIGN §4 C30); the POSIX-model equivalence over write/flush histories is beyond a per-function contract",
  "C38":"a schedule (linearizability) property; the generator is sequential",
  "C39":"unbounded tree of pointer maps with recursive deletion; needs inductive heap predicates",
 }
